@@ -197,3 +197,36 @@ def warmup_flow():
         bc = pp.BoundaryCondition(g, bf, ["dir"] * bf.size)
         discretize_flow(g, K, bc, "mpfa")
         discretize_flow(g, K, bc, "tpfa")
+
+
+# --------------------------------------------------------------------------- mechanics parameters (C14)
+@st.composite
+def lame_het_spec(draw):
+    """Lame parameters mu in [0.5,3], lambda in [0.1,3], optionally with independent cell-wise factors."""
+    s = {"mu": draw(_f(0.5, 3.0)), "lmbda": draw(_f(0.1, 3.0)), "het_amp": 0.0, "het_seed": 0}
+    if draw(st.booleans()):
+        s["het_amp"] = draw(_f(1.2, 5.0))
+        s["het_seed"] = draw(st.integers(0, 2**31 - 1))
+    return s
+
+
+def build_stiffness(ls, g):
+    import porepy as pp
+
+    nc = g.num_cells
+    if ls.get("het_amp"):
+        rng = np.random.default_rng(ls["het_seed"])
+        f1 = np.exp(rng.uniform(-1, 1, nc) * np.log(ls["het_amp"]))
+        f2 = np.exp(rng.uniform(-1, 1, nc) * np.log(ls["het_amp"]))
+    else:
+        f1 = f2 = np.ones(nc)
+    return pp.FourthOrderTensor(ls["mu"] * f1, ls["lmbda"] * f2)
+
+
+def build_alphas(a_scalar, a_diag, g, het_seed=0):
+    """Two Biot coupling terms: a float and a heterogeneous diagonal SecondOrderTensor."""
+    import porepy as pp
+
+    f = np.exp(np.random.default_rng(het_seed).uniform(-0.5, 0.5, g.num_cells))
+    d = np.asarray(a_diag, dtype=float)
+    return {"a": float(a_scalar), "b": pp.SecondOrderTensor(kxx=d[0] * f, kyy=d[1] * f, kzz=d[2] * f)}
